@@ -488,7 +488,9 @@ fn order_checks(
         if *step != STEP_HANDLER && bs.any && cs.any && cs.max_pass > bs.min_first {
             out.push(v(
                 "capture_late",
-                Some(EvKind::Cap),
+                // the caller-side event that came late: a capture, or the joiner (a branch started before the joiner was called:
+                // under lazy_branches(true) nothing of a branch may run before the joiner calls its closure)
+                Some(prog.ev(*cev).map(|m| m.kind).filter(|k| *k == EvKind::Joiner).unwrap_or(EvKind::Cap)),
                 format!("invocation {:?} step {}: capture event {} finished (seq {}) after branch event {} started (seq {})", ik, step, cev, cs.max_pass, bev, bs.min_first),
             ));
         }
